@@ -149,7 +149,7 @@ def gen_reads(cfg):
     amax = max(n_alleles)
     n_reads = cfg["n_reads"]
     reads = np.zeros((n_reads, n_pos, amax), dtype=np.float64)
-    if cfg.get("read_style", "plain") != "plain":
+    if cfg.get("read_style", "plain") != "plain" and n_pos >= 12:
         a, b, gaps = long_truths(cfg)
         for r in range(n_reads):
             hap = a if r % 2 == 0 else b
@@ -202,6 +202,8 @@ def gen_initial(cfg, rng_seed):
         elif mode == "dup_pairs":
             base = [hap() for _ in range(max(1, cfg["ploidy"] // 2))]
             g = [list(base[i % len(base)]) for i in range(cfg["ploidy"])]
+        elif mode == "truth_rows" and len(n_alleles) < 12:
+            g = [hap() for _ in range(cfg["ploidy"])]
         elif mode == "truth_rows":
             a, b, gaps = long_truths(cfg)
             g = []
